@@ -175,6 +175,7 @@ static int TRACE = 0;
 
 #include "lpdata_EGLPNUM_TYPENAME.h"
 #include "lpdefs_EGLPNUM_TYPENAME.h"
+#include "factor_EGLPNUM_TYPENAME.h"
 #include "simplex_EGLPNUM_TYPENAME.h"
 #include "price_EGLPNUM_TYPENAME.h"
 #include "qstruct_EGLPNUM_TYPENAME.h"
@@ -2263,6 +2264,38 @@ void free_cache (
 	p->qstatus = QS_LP_MODIFIED;
 }
 
+/* the factored basis inside the simplex structure describes the stored basis of
+ * the problem as it is now (same dimensions, same basic/non-basic statuses) */
+static int factored_basis_is_current (
+	EGLPNUM_TYPENAME_QSdata * p)
+{
+	EGLPNUM_TYPENAME_lpinfo *lp = p->lp;
+	EGLPNUM_TYPENAME_ILLlpdata *qslp = p->qslp;
+	char *cstat = 0, *rstat = 0;
+	int i, ok = 1, rval = 0;
+
+	if (!p->basis || !lp || lp->basisid == -1 || !lp->baz || !lp->vstat || !lp->f)
+		return 0;
+	if (lp->nrows != qslp->nrows || lp->ncols != qslp->ncols ||
+			lp->f->dim != qslp->nrows ||
+			p->basis->nstruct != qslp->nstruct || p->basis->nrows != qslp->nrows)
+		return 0;
+	ILL_SAFE_MALLOC (cstat, qslp->nstruct + 1, char);
+	ILL_SAFE_MALLOC (rstat, qslp->nrows + 1, char);
+	if (EGLPNUM_TYPENAME_ILLlib_getbasis (lp, cstat, rstat))
+		ok = 0;
+	for (i = 0; ok && i < qslp->nstruct; i++)
+		if ((cstat[i] == QS_COL_BSTAT_BASIC) != (p->basis->cstat[i] == QS_COL_BSTAT_BASIC))
+			ok = 0;
+	for (i = 0; ok && i < qslp->nrows; i++)
+		if ((rstat[i] == QS_ROW_BSTAT_BASIC) != (p->basis->rstat[i] == QS_ROW_BSTAT_BASIC))
+			ok = 0;
+CLEANUP:
+	ILL_IFFREE (cstat);
+	ILL_IFFREE (rstat);
+	return rval ? 0 : ok;
+}
+
 EGLPNUM_TYPENAME_QSLIB_INTERFACE int EGLPNUM_TYPENAME_QSget_binv_row (
 	EGLPNUM_TYPENAME_QSdata * p,
 	int indx,
@@ -2292,6 +2325,12 @@ EGLPNUM_TYPENAME_QSLIB_INTERFACE int EGLPNUM_TYPENAME_QSget_binv_row (
 		rval = 1;
 		goto CLEANUP;
 	}
+	if (!factored_basis_is_current (p))
+	{
+		QSlog("no factored basis for the current problem in EGLPNUM_TYPENAME_QSget_binv_row");
+		rval = 1;
+		goto CLEANUP;
+	}
 
 	rval = EGLPNUM_TYPENAME_ILLlib_tableau (p->lp, indx, binvrow, 0);
 	CHECKRVALG (rval, CLEANUP);
@@ -2317,6 +2356,12 @@ EGLPNUM_TYPENAME_QSLIB_INTERFACE int EGLPNUM_TYPENAME_QSget_tableau_row (
 		rval = 1;
 		goto CLEANUP;
 	}
+	if (!factored_basis_is_current (p))
+	{
+		QSlog("no factored basis for the current problem in EGLPNUM_TYPENAME_QSget_tableau_row");
+		rval = 1;
+		goto CLEANUP;
+	}
 
 	rval = EGLPNUM_TYPENAME_ILLlib_tableau (p->lp, indx, 0, tableaurow);
 	CHECKRVALG (rval, CLEANUP);
@@ -2338,6 +2383,12 @@ EGLPNUM_TYPENAME_QSLIB_INTERFACE int EGLPNUM_TYPENAME_QSget_basis_order (
 	if (p->cache == 0)
 	{
 		QSlog("LP has not been optimized in EGLPNUM_TYPENAME_QSget_basis_order");
+		rval = 1;
+		goto CLEANUP;
+	}
+	if (!factored_basis_is_current (p))
+	{
+		QSlog("no factored basis for the current problem in EGLPNUM_TYPENAME_QSget_basis_order");
 		rval = 1;
 		goto CLEANUP;
 	}
